@@ -15,7 +15,10 @@ import math
 import numpy as np
 
 import teneva
-from teneva import _verif
+try:
+    from teneva import _verif
+except ImportError:          # hooks module removed by a refactoring: black-box mode (see record)
+    _verif = None
 
 from . import common, tlc, traces
 
@@ -58,20 +61,48 @@ def exact_B(A, I):
 
 def record(A, e, k, rect=None):
     """Run maxvol / maxvol_rect with hooks on; returns (trace dict, events raw, result)."""
-    if not _verif.ON:
+    if _verif is not None and not _verif.ON:
         raise common.Machinery('teneva._verif hooks are off (TENEVA_VERIF=1 must be set before import)')
-    _verif.drain()
+    if _verif is not None:
+        _verif.drain()
     A = np.array(A, dtype=float)
     if rect is None:
         I, B = teneva.maxvol(A, float(e), k)
     else:
         tau, drmin, drmax = rect
         I, B = teneva.maxvol_rect(A, float(tau), drmin, drmax, float(e), k)
-    raw = _verif.drain()
+    raw = _verif.drain() if _verif is not None else []
     names = [x['ev'] for x in raw]
     if 'mv_init' not in names or ('mv_ret' not in names):
-        raise common.Machinery('maxvol hooks did not fire: %s' % names)
+        # a refactoring dropped the (add-only) hooks: degrade to the black-box contract of the result
+        return None, np.array(I), np.array(B)
     return raw, np.array(I), np.array(B)
+
+
+def blackbox_verdict(A, e, k, rect, I, B):
+    """Contract of the result alone (used when the hooks are gone): distinct valid rows, A = B A[I], identity rows,
+    row count, and - when the iteration budget cannot have been exhausted - dominance max|B| <= e (square case)."""
+    A = np.array(A, dtype=float)
+    n, r = A.shape
+    Il = [int(v) for v in I]
+    if len(set(Il)) != len(Il) or any(not (0 <= v < n) for v in Il):
+        return 'returned rows are not distinct valid row numbers: %s' % Il
+    if B.shape != (n, len(Il)):
+        return 'coefficient matrix has shape %s' % (B.shape,)
+    res = np.abs(B @ A[Il] - A).max()
+    if res > 1e-6 * max(1., np.abs(B).max()) * max(1e-300, np.abs(A).max()):
+        return 'A != B A[I] (residual %.2e)' % res
+    if rect is None:
+        if len(Il) != r:
+            return 'maxvol returned %d rows for %d columns' % (len(Il), r)
+        if k >= 100 and np.abs(B).max() > e * (1 + 1e-9):
+            return 'result is not dominant: max|B| = %.6g > e = %s' % (np.abs(B).max(), e)
+    else:
+        if not (r + rect[1] <= len(Il) <= min(n, r + rect[2])):
+            return 'number of rows %d outside the allowed range' % len(Il)
+        if not np.allclose(B[Il], np.eye(len(Il)), atol=1e-9):
+            return 'B[I] is not the identity'
+    return None
 
 
 def to_trace(A, e, k, rect, raw, I, B):
@@ -257,11 +288,18 @@ def run(ctx):
         except ValueError as ex:
             ctx.violation('maxvol:raises', 'valid call raised %s (A=%s, rect=%s)' % (ex, A.tolist(), rect), case={'A': A.tolist()})
             continue
+        if raw is None:
+            ctx.notes['degraded'] = 'maxvol hooks did not fire: results judged by their black-box contract only'
+            bv = blackbox_verdict(A, e, k, rect, I, B)
+            ctx.case(key=(A.tolist(), e, k, rect), nontrivial=True)
+            if bv is not None:
+                ctx.violation('maxvol:result' if rect is None else 'maxvol_rect:result', '%s; A=%s e=%s k=%s rect=%s' % (bv, A.tolist(), e, k, rect), case={'A': A.tolist()})
+            continue
         tr = to_trace(A.tolist(), e, k, rect, raw, I, B)
         mv = mirror_verdict(A.tolist(), e, k, rect, raw, I, B)
         trs.append(tr)
         metas.append((A, e, k, rect, mv, sum(1 for x in raw if x['ev'] in ('mv_swap', 'mr_add'))))
-    verdicts, st, gen, runs = traces.validate('Trace_Maxvol', trs, cfg='Trace_Maxvol.cfg', diag_cfg='Trace_Maxvol_diag.cfg')
+    verdicts, st, gen, runs = traces.validate('Trace_Maxvol', trs, cfg='Trace_Maxvol.cfg', diag_cfg='Trace_Maxvol_diag.cfg') if trs else ([], 0, 0, [])
     for r_ in runs:
         ctx.add_tlc(r_, 'trace validation (Trace_Maxvol), %d traces' % len(trs))
     disagree = 0
@@ -303,6 +341,13 @@ def run(ctx):
             raw, I, B = record(A, e, k, rect)
         except ValueError as ex:
             ctx.violation('maxvol:raises', 'valid call raised %s' % ex, case={'A': A.tolist(), 'rect': rect})
+            continue
+        if raw is None:
+            bv = blackbox_verdict(A, e, k, rect, I, B)
+            ctx.case(key=('float', t, ctx.seed), nontrivial=True)
+            if bv is not None:
+                ctx.violation('maxvol:float' if rect is None else 'maxvol_rect:float', '%s (n=%d r=%d cond=%.1e e=%s k=%s rect=%s)' % (bv, n, r, cond, e, k, rect),
+                              case={'A': A.tolist(), 'e': e, 'k': k, 'rect': rect})
             continue
         # the rounding slack must scale with the conditioning for the B comparison only
         mv = mirror_verdict(A.tolist(), e, k, rect, raw, I, B) if cond < 1e5 else mirror_verdict_loose(A, e, k, rect, raw, I, B)
